@@ -164,6 +164,15 @@ def replay_point(chk, e, n):
         ok &= cmp(chk, key, "born", psi[0, k].item() ** 2 + psi[1, k].item() ** 2, terms.mpf(prob[k].item()),
                   dict(det, state=k), rel=1e-12)
     ok &= cmp(chk, key, "normalization", cx.normalization(sp).item(), Z, det)
+    # "every basis state": the state's own enumeration (no size given) is the 2^nv states of its visible layer,
+    # whatever the width of the hidden layer
+    own = cx.generate_hilbert_space()
+    chk.evaluations += 1
+    if tuple(own.shape) != tuple(sp.shape) or not torch.equal(own.to(sp.dtype), sp):
+        chk.violation(key + ":own-basis", dict(det, shape=list(own.shape), expected_shape=list(sp.shape)))
+        ok = False
+    else:
+        ok &= cmp(chk, key, "normalization[own basis]", cx.normalization(own).item(), Z, det)
     ok &= z_forms(chk, cx, key, sp, p_exact, Z, det, n)
     v1 = cx.psi(sp[k1])
     w1 = amp[k1] * terms.cis(terms.ln(r_exact[k1]) / 2)
